@@ -201,6 +201,13 @@ class Optimizer(Logger, Citable):
             #     value = 10**value
             fset(priors.prior(value))
 
+    def _prior_is_linear(self, param):
+        # Values, boundaries and names are all reported in the space of
+        # the prior actually used for the parameter
+        if param[0] in self._fit_priors:
+            return self._fit_priors[param[0]].priorMode is PriorMode.LINEAR
+        return param[4] == 'linear'
+
     @property
     def fit_values_nomode(self):
         """ 
@@ -231,7 +238,7 @@ class Optimizer(Logger, Citable):
 
         """
 
-        return [c[2]() if c[4] == 'linear' else math.log10(c[2]())
+        return [c[2]() if self._prior_is_linear(c) else math.log10(c[2]())
                 for c in self.fitting_parameters]
 
     @property
@@ -248,7 +255,7 @@ class Optimizer(Logger, Citable):
             ( ``bound_min`` , ``bound_max`` )
 
         """
-        return [c[-1] if c[4] == 'linear'
+        return [c[-1] if self._prior_is_linear(c)
                 else (math.log10(c[-1][0]), math.log10(c[-1][1]))
                 for c in self.fitting_parameters]
 
